@@ -140,7 +140,7 @@ def viol(ctx, key, what, replay):
     parameters), so that one class cannot crowd the others out of the report."""
     import re
     cls = re.sub(r'(sign|dtype|ndim|nlevels|shape|n)=[^ ]*|axes=(\([^)]*\)|None)', '', key)
-    cnt = ctx.extra.setdefault('_viol_classes', {})
+    cnt = ctx.extra.setdefault('violation_classes', {})
     cnt[cls] = cnt.get(cls, 0) + 1
     if cnt[cls] <= 3:
         ctx.violation(key, what, replay)
@@ -595,6 +595,16 @@ def run_dft_case(ctx, B, desc, oracle_only=False):
     # ---- correspondence with the model
     mimpl = 'np' if impl == 'numpy' else 'fftw'
     last = axes[-1]
+    if impl == 'pyfftw':
+        first_bad = any(pr[0] in ('forward-first-call', 'forward') for pr in probs)
+
+        def cbp(ans, first_bad=first_bad):
+            surv = fields(ans)['survives'] == '1'
+            ctx.hit('pyfftw_call/planning/' + ('data-survives' if surv else 'plans-on-data-array'))
+            if surv and first_bad:
+                ctx.disagree(desc, 'first call of a fresh FFTW_MEASURE plan gave wrong values',
+                             ans + ' (model: data survives planning)')
+        B.add('plan real={} hc={} fresh=1 destroys=1'.format(int(realdom), int(hc)), cbp)
     line = 'dft num={} impl={} inv=0 plus={} hc={} real={} rshape={} axes={} x={}'.format(
         'x' if exact else 'f', mimpl, int(sign == '+'), int(hc), int(realdom), nl(shape), nl(axes), cl(x))
 
@@ -621,7 +631,7 @@ def run_dft_case(ctx, B, desc, oracle_only=False):
     return probs
 
 
-def run_dft_complex_hc(ctx):
+def run_dft_complex_hc(ctx, B=None):
     """halfcomplex=True on a complex space is documented to have no effect."""
     odl = _odl()
     from odl.trafos import DiscreteFourierTransform as DFT
@@ -633,6 +643,16 @@ def run_dft_complex_hc(ctx):
             ctx.case(('dftchc', shape, impl))
             res, e = safe(lambda: DFT(sp, halfcomplex=True, impl=impl)(x).asarray())
             ref = np.fft.fftn(x)
+            if B is not None:
+                rshape, e0 = safe(lambda: DFT(sp, halfcomplex=True, impl=impl).range.shape)
+
+                def cb(ans, rshape=rshape, desc=desc, e=e, shape=shape):
+                    f = fields(ans)
+                    if rshape is None or int(f['range']) != rshape[-1]:
+                        ctx.disagree(desc, 'range shape {}'.format(rshape), ans)
+                    if (f['range'] != f['out']) != (e is not None):
+                        ctx.disagree(desc, 'call raised: {!r}'.format(e), ans)
+                B.add('dftrange n={} cplx=1 hc=1'.format(shape[-1]), cb)
             if e is not None or res.shape != ref.shape or np.max(np.abs(res - ref)) > 1e-9:
                 viol(ctx, 'dft complex domain with halfcomplex=True (documented: no effect) '
                               'impl={}'.format(impl),
@@ -724,11 +744,14 @@ def run_ft_case(ctx, B, desc, oracle_only=False):
     ref = ft_direct(sp, x, axes, shifts, sign, hc)
     scale = max(1.0, float(np.max(np.abs(ref))))
     tol = tol_for(dt, scale) * 10
-    y, e = safe(lambda: F(sp.element(x.copy())))
+    xin = sp.element(x.copy())
+    y, e = safe(lambda: F(xin))
     fwd = e if e is not None else y.asarray()
     if e is not None:
         probs.append(('forward', 'forward raised {!r}'.format(e)[:300]))
     else:
+        if not np.array_equal(xin.asarray(), x):
+            probs.append(('forward', 'input modified by the forward transform'))
         if fwd.shape != ref.shape or not np.max(np.abs(fwd - ref)) <= tol:
             probs.append(('forward', 'forward != direct sum of the discretised Fourier integral: '
                           'shape {} vs {}, max dev {} (scale {:.3g})'.format(
@@ -752,11 +775,14 @@ def run_ft_case(ctx, B, desc, oracle_only=False):
     if e is not None:
         probs.append(('inverse', 'inverse constructor raised {!r}'.format(e)[:300]))
     else:
-        z, e = safe(lambda: Fi(Fi.domain.element(yin.copy())))
+        yel, _ = safe(lambda: Fi.domain.element(yin.copy()))
+        z, e = safe(lambda: Fi(yel))
         inv = e if e is not None else z.asarray()
         if e is not None:
             probs.append(('inverse', 'inverse raised {!r}'.format(e)[:300]))
         else:
+            if not np.array_equal(yel.asarray(), yin):
+                probs.append(('inverse', 'input modified by the inverse transform'))
             expect = x
             if realdom and not hc:
                 expect = x  # C2R: real part of the exact inverse of real data is the data
@@ -915,6 +941,10 @@ def wavelet_configs(ctx):
                 if k not in keep:
                     keep[k] = c
         cfgs = list(dict.fromkeys(keep.values()))
+        # the adjoint identity needs orthogonal wavelet + periodization + dyadic sizes
+        cfgs += [(wv, shape, 'pywt_periodic', lev, None, 'float64')
+                 for wv in ('haar', 'db2', 'sym4', 'coif1')
+                 for shape, lev in (((8,), 1), ((16,), 2), ((8, 8), 2), ((8, 4, 4), 1))]
     else:
         cfgs = cfgs[:2500]
     return cfgs
@@ -1021,6 +1051,10 @@ def run_wavelet_case(ctx, B, desc, oracle_only=False):
         if isinstance(xr, np.ndarray):
             if ans != 'ok keep=' + nl(xr.shape):
                 ctx.disagree(desc, 'cropped reconstruction shape {} from {}'.format(xr.shape, rec.shape), ans)
+            else:  # the model keeps the LEADING entries of pywt's reconstruction
+                lead = rec[tuple(slice(0, k) for k in xr.shape)]
+                if not np.max(np.abs(lead - xr)) <= tol * 50 * max(1, np.max(np.abs(x))):
+                    ctx.disagree(desc, 'W.inverse(c) is not the leading block of pywt.waverecn', ans)
         elif not ans.startswith('err'):
             ctx.disagree(desc, 'inverse raised', ans)
     B.add('crop recon={} intended={}'.format(nl(rec.shape), nl(shape)), cb2)
@@ -1095,7 +1129,7 @@ def run(ctx):
     run_factors(ctx, B)
     B.flush()
     run_dft(ctx, B)
-    run_dft_complex_hc(ctx)
+    run_dft_complex_hc(ctx, B)
     B.flush()
     run_ft(ctx, B)
     B.flush()
